@@ -234,6 +234,56 @@ R.contract(
     max_paths=20000,
 )
 
+
+# ------------------------------------------------------------------------------------------------- get_strategies_from_examples: every combination becomes one explicit-phase strategy
+def _examples_list(tag):
+    def returns(it, env):
+        from pyvc.values import VGen
+
+        out = ListOf(Opq("ExampleRef"), [0, 1, 2], widen=False).make(it, it.path.fresh(tag))
+        it.ghost[tag] = list(out)
+        return VGen(out)
+
+    return returns
+
+
+_etl = R.contracts[EX + "extract_top_level"]
+_etl.returns = _examples_list("top_level")
+_etl.call_ensures = {}
+_etl.requires_are_representation_invariant = True
+R.contract(EX + "extract_from_schemas", args={"operation": Opq("Any")}, returns=_examples_list("from_schemas"), trusted=True, note="examples inside parameter / body schemas (extract_from_schema: own contract)")
+_pc = R.contracts[EX + "produce_combinations"]
+_pc.returns = lambda it, env: it.ghost.__setitem__("combined", list(it.iterate_all(env["examples"]))) or it.ghost.__setitem__(
+    "combos", ListOf(DictOf(optional={"query": Opq("QueryValues"), "body": Opq("BodyValue")}), [0, 1, 2], widen=False).make(it, it.path.fresh("combos"))) or __import__("pyvc.values", fromlist=["VGen"]).VGen(it.ghost["combos"])
+_pc.call_ensures = {}
+_pc.requires_are_representation_invariant = True
+R.contract("schemathesis.specs.openapi.serialization:get_serializers_for_operation", args={"operation": Opq("Any")}, returns=Const({}), trusted=True, note="C06 contracts")
+R.nominal_methods["spec:ExplicitStrategy"] = {"map": lambda it, obj, a, k: __import__("pyvc.values", fromlist=["VObj"]).VObj(it.resolve_class("spec:MappedStrategy"), {"inner": obj, "f": a[0]})}
+def _openapi_cases_stub(it, a, k):
+    from pyvc.values import VObj
+
+    return VObj(it.resolve_class("spec:ExplicitStrategy"), {"kwargs": dict(k), "positional": list(a)})
+
+
+# (the name `openapi_cases` as imported into examples.py: C01 / C17 contracts - a case strategy with the given containers fixed, the rest filled in by get_parameters_value)
+R.module_values["schemathesis.specs.openapi.examples:openapi_cases"] = __import__("pyvc.interp", fromlist=["BuiltinFn"]).BuiltinFn("openapi_cases", _openapi_cases_stub)
+R.contract(
+    EX + "get_strategies_from_examples",
+    prop="C17",
+    args={"operation": Opq("ExampleOperationRef"), "kwargs": Const({})},
+    ghost={"top_level": None, "from_schemas": None, "combined": None, "combos": None},
+    raises=[],
+    ensures={
+        # "every example ... is sent": examples of BOTH sources are combined, and every combination becomes one strategy of the examples phase with exactly its containers fixed
+        "examples_of_both_sources_are_combined": "ghost('combined') == ghost('top_level') + ghost('from_schemas')",
+        "one_explicit_strategy_per_combination_with_its_own_values": "length(result) == length(ghost('combos')) and all(r.inner.kwargs['operation'] is operation and r.inner.kwargs['phase'].name == 'EXPLICIT' and "
+            "all(k in r.inner.kwargs and same_ref(r.inner.kwargs[k], c[k]) for k in c) and length(r.inner.kwargs) == length(c) + 2 for r, c in zip(result, ghost('combos')))",
+    },
+    bounded_note="up to 2 examples per source, up to 2 combinations",
+    replayable=False,
+)
+R.spec_funcs["same_ref"] = lambda it, a, b: a is b
+
 LEVEL_TEXT = ("Deductive coverage postcondition on the real combination generators for example lists up to a stated size (labelled bounded), plus the round-robin "
               "arithmetic lemma for all sizes; extraction of examples from the document is not decided here.")
 LEVEL_NOTE = "Trusted: itertools cycle/islice (E5), fill-in generation (E1/E2), pyvc semantics (E9)."
